@@ -21,7 +21,8 @@ RULE = ("case = one point of the lattice functional{rootfinder,equilibrium,minim
         "the n<=5 direct/Krylov dispatch of the backward solve) x backward solver {default, exactsolve, cg on the "
         "normal equations, bicgstab, gmres, broyden1; explicit tolerances} x parameter placement {explicit tensors, "
         "nn.Module parameters, EditableModule leaf tensors, EditableModule derived tensors, explicit tensors "
-        "interleaved with float/int/None/str/non-differentiable tensor/unused tensor} x initial guess {zero, near, "
+        "interleaved with float/int/None/str/non-differentiable tensor/unused tensor, the same tensor object at two "
+        "explicit positions, a tensor held by the EditableModule and also passed explicitly} x initial guess {zero, near, "
         "zero with requires_grad} x cotangent {dense, unit, zero}; inside a case: first-order gradients of <cot, y> "
         "and second-order gradients (gradient of a fixed contraction of the first-order gradients) w.r.t. every "
         "differentiable tensor, compared with the reference; distinct = distinct rounded observation")
@@ -45,7 +46,7 @@ INF = float("inf")
 
 RF = ("newton", "broyden1", "broyden2", "linearmixing")
 BCKS = ("default", "exactsolve", "cg", "bicgstab", "gmres", "broyden1")
-PLACEMENTS = ("explicit", "nnmodule", "editable", "editable_derived", "mixed")
+PLACEMENTS = ("explicit", "nnmodule", "editable", "editable_derived", "mixed", "twice", "held_twice")
 
 
 def _methods(functional):
@@ -98,6 +99,9 @@ def cases(tier, seed):
                                             if cot == "unit":
                                                 continue
                                             if placement in ("editable_derived", "nnmodule") and (n, kind) == (5, "n"):
+                                                continue
+                                            if placement in ("twice", "held_twice") and \
+                                                    (bck not in ("exactsolve", "bicgstab") or (n, kind) == (5, "n")):
                                                 continue
                                             if method in ("gd", "adam", "linearmixing", "broyden2") and \
                                                     placement not in ("explicit", "mixed"):
@@ -175,6 +179,46 @@ def _scenario(cfg, prob, leaves):
         def pure(y, *lv):
             return base(y, *lv)
         return fcn, params, diff, pure
+
+    if placement == "twice":
+        # the same tensor object at two positions of the explicit parameters (c enters as (c + c') / 2)
+        cidx = names.index("c")
+
+        def fcn(y, *p):
+            q = list(p[:-1])
+            q[cidx] = 0.5 * (q[cidx] + p[-1])
+            return base(y, *q)
+        params = tuple(leaves) + (leaves[cidx],)
+        diff = list(zip(names, leaves))
+
+        def pure(y, *lv):
+            return base(y, *lv)
+        return fcn, params, diff, pure
+
+    if placement == "held_twice":
+        # a tensor held by the EditableModule is also passed explicitly
+        cidx = names.index("c")
+
+        class EModT(xt.EditableModule):
+            def __init__(self):
+                for nm, t in zip(names, leaves):
+                    setattr(self, nm, t)
+
+            def forward(self, y, c2):
+                q = [getattr(self, nm) for nm in names]
+                q[cidx] = 0.5 * (q[cidx] + c2)
+                return base(y, *q)
+
+            def getparamnames(self, methodname, prefix=""):
+                if methodname == "forward":
+                    return [prefix + nm for nm in names]
+                raise KeyError(methodname)
+        mod = EModT()
+        diff = list(zip(names, leaves))
+
+        def pure(y, *lv):
+            return base(y, *lv)
+        return mod.forward, (leaves[cidx],), diff, pure
 
     if placement == "nnmodule":
         class Mod(torch.nn.Module):
